@@ -570,12 +570,26 @@ def check_hedging(case):
         if not (lo_max - 1e-6 <= C8**n <= hi_max + 1e-6):
             raise HarnessError(f"oracle: certified interval [{lo_max}, {hi_max}] misses the documented value cos^2(pi/8)^n")
     h = QuantumHedging(q, n)
-    vals = {
-        "max_primal": _f(lambda: h.max_prob_outcome_a_primal(), "max_primal"),
-        "max_dual": _f(lambda: h.max_prob_outcome_a_dual(), "max_dual"),
-        "min_primal": _f(lambda: h.min_prob_outcome_a_primal(), "min_primal"),
-        "min_dual": _f(lambda: h.min_prob_outcome_a_dual(), "min_dual"),
+    methods = {
+        "max_primal": lambda: h.max_prob_outcome_a_primal(),
+        "max_dual": lambda: h.max_prob_outcome_a_dual(),
+        "min_primal": lambda: h.min_prob_outcome_a_primal(),
+        "min_dual": lambda: h.min_prob_outcome_a_dual(),
     }
+    # the four methods are called on ONE object in an order derived from the case, and the first two are then called
+    # again: a method that leaves the object changed (seeded change C09-t2: min_dual negating the stored operator and
+    # not restoring it) was invisible while min_dual happened to be called last
+    from tqv.core import case_hash
+
+    order = [list(methods)[i] for i in np.random.Generator(np.random.PCG64(int(case_hash(case)[:12], 16))).permutation(4)]
+    vals = {name: _f(methods[name], name) for name in order}
+    for name in order[:2]:
+        again = _f(methods[name], name + " (second call on the same object)")
+        req(
+            abs(again - vals[name]) <= 1e-5 * max(1.0, abs(vals[name])),
+            f"{name} returned {vals[name]:.6f} and, after calls of {order}, {again:.6f} on the same QuantumHedging object",
+            "hedging_history_dependent",
+        )
     tol = _tol(hi_max)
     kind = "complex" if np.iscomplexobj(q) else "real"
     for name in ("max_primal", "max_dual"):
